@@ -386,6 +386,24 @@ fn main() {
             bad
         }));
     }
+    // a fourth caller for short subjects: the validate_mt plugin handler on the subject's text (I5 under overlap)
+    let mut callers = 3;
+    if text.len() <= 520 {
+        callers = 4;
+        let (l, t) = (l.clone(), text.clone());
+        hs.push(std::thread::spawn(move || {
+            let mut bad = vec![];
+            match plugin_validate(&t) {
+                Ok((valid, errs)) => {
+                    if valid != l.is_empty() || errs.len() != l.len() {
+                        bad.push(format!("I5 validate_mt plugin overlapping other calls returned valid={valid} with {} error(s), the full list has {}", errs.len(), l.len()));
+                    }
+                }
+                Err(e) => bad.push(format!("I5 validate_mt plugin failed on a parseable message: {e}")),
+            }
+            bad
+        }));
+    }
     for h in hs {
         match h.join() {
             Ok(b) => bad.extend(b),
@@ -393,7 +411,7 @@ fn main() {
         }
     }
     if bad.is_empty() {
-        println!("MICRO-OK subject={idx} mt={mt} errors_in_full_list={} rounds={rounds} callers=3", l.len());
+        println!("MICRO-OK subject={idx} mt={mt} errors_in_full_list={} rounds={rounds} callers={callers}", l.len());
     } else {
         for b in &bad {
             println!("MICRO-VIOLATION subject={idx} mt={mt} {b}");
